@@ -169,3 +169,112 @@ func (store *HStore) VerifWritePos(bucketID int) (int, uint32) {
 	defer ds.Unlock()
 	return ds.newHead, ds.chunks[ds.newHead].writingHead
 }
+
+// ---- hint files (C14) ----
+
+// VerifHintItem is a plain copy of a hint item (Pos.ChunkID only matters in merged files).
+type VerifHintItem struct {
+	Keyhash uint64
+	Chunk   int
+	Offset  uint32
+	Ver     int32
+	Vhash   uint16
+	Key     string
+}
+
+func verifToItem(v VerifHintItem) *HintItem {
+	return newHintItem(v.Keyhash, v.Ver, v.Vhash, Position{v.Chunk, v.Offset}, v.Key)
+}
+
+func verifFromItem(it *HintItem) VerifHintItem {
+	return VerifHintItem{it.Keyhash, it.Pos.ChunkID, it.Pos.Offset, it.Ver, it.Vhash, it.Key}
+}
+
+// VerifHintWrite writes items in the given order with the hint file writer.
+func VerifHintWrite(path string, items []VerifHintItem, datasize uint32) error {
+	w, err := newHintFileWriter(path, datasize, 1<<20)
+	if err != nil {
+		return err
+	}
+	for _, it := range items {
+		if err := w.writeItem(verifToItem(it)); err != nil {
+			return err
+		}
+	}
+	return w.close()
+}
+
+// VerifHintReadAll reads a hint file back with the sequential reader.
+func VerifHintReadAll(path string) (items []VerifHintItem, datasize uint32, numKey int, err error) {
+	r := newHintFileReader(path, 0, 1<<16)
+	if err = r.open(); err != nil {
+		return
+	}
+	defer r.close()
+	datasize, numKey = r.datasize, r.numKey
+	for {
+		it, e := r.next()
+		if e != nil {
+			return items, datasize, numKey, e
+		}
+		if it == nil {
+			return
+		}
+		items = append(items, verifFromItem(it))
+	}
+}
+
+// VerifHintIndex loads the sparse index of a hint file: (keyhash, file offset) pairs.
+func VerifHintIndex(path string) (khashes []uint64, offsets []int64, err error) {
+	idx, err := loadHintIndex(path)
+	if err != nil {
+		return nil, nil, err
+	}
+	for _, e := range idx.index {
+		khashes = append(khashes, e.keyhash)
+		offsets = append(offsets, e.offset)
+	}
+	return
+}
+
+// VerifHintLookup looks a (keyhash, key) pair up through the sparse index.
+func VerifHintLookup(path string, keyhash uint64, key string) (*VerifHintItem, error) {
+	idx, err := loadHintIndex(path)
+	if err != nil {
+		return nil, err
+	}
+	it, err := idx.get(keyhash, key)
+	if err != nil || it == nil {
+		return nil, err
+	}
+	v := verifFromItem(it)
+	return &v, nil
+}
+
+// VerifHintMerge merges hint files (each read with its chunk id) into dst and returns the collision table content.
+func VerifHintMerge(paths []string, chunks []int, dst string) (collisions []VerifHintItem, err error) {
+	readers := make([]*hintFileReader, len(paths))
+	for i, p := range paths {
+		readers[i] = newHintFileReader(p, chunks[i], 4096)
+	}
+	ct := newCollisionTable()
+	state := HintStateIdle
+	_, err = merge(readers, dst, ct, &state, false)
+	for _, m := range ct.Items {
+		for _, it := range m {
+			it := it
+			collisions = append(collisions, verifFromItem(&it))
+		}
+	}
+	return
+}
+
+// VerifHintBufferDump feeds items to a HintBuffer (Set) and dumps it.
+func VerifHintBufferDump(path string, items []VerifHintItem, recSizes []uint32) (accepted []bool, err error) {
+	buf := NewHintBuffer()
+	for i, it := range items {
+		accepted = append(accepted, buf.Set(verifToItem(it), recSizes[i]))
+	}
+	_, err = buf.Dump(path)
+	return
+}
